@@ -1,6 +1,7 @@
 from __future__ import annotations
 
 import collections
+import copy
 import dataclasses
 import functools
 import inspect
@@ -74,6 +75,9 @@ def main(original_function=None, **sp_kwargs):
                 if parameter.default != inspect.Parameter.empty:
                     if inspect.isfunction(parameter.default):
                         default_factory = parameter.default
+                    elif isinstance(parameter.default, (list, dict, set)):
+                        # Mutable default: dataclasses want a factory.
+                        default_factory = functools.partial(copy.deepcopy, parameter.default)
                     else:
                         default = parameter.default
 
